@@ -22,9 +22,9 @@ counters! {
     // G0: in-memory baseline on the sampled value
     g0_items_checked, g0_reparse_ok,
     // printing phase
-    p_calls, p_accept, p_fail_transient, p_fail_sticky, p_runs_ok, p_runs_err,
+    p_calls, p_accept, p_fail_transient, p_fail_sticky, p_reenter, p_runs_ok, p_runs_err,
     // write phase, per SimWriter call
-    w_calls, w_accept, w_short, w_eintr, w_hard_transient, w_hard_sticky, w_full, w_lost, w_crash,
+    w_calls, w_accept, w_short, w_eintr, w_hard_transient, w_hard_sticky, w_full, w_lost, w_crash, w_reenter,
     w_after_crash_ignored,
     flush_calls, flush_ok, flush_err, flush_crash,
     bufwriter_runs, sync_each_write_runs, pretty_runs,
@@ -33,7 +33,7 @@ counters! {
     // recovery phase
     survivors_complete, survivors_torn, survivors_empty, survivors_complete_unacked,
     flips_applied, flip_runs_rejected, flip_runs_other_value, flip_runs_same_value,
-    r_calls, r_chunk, r_eintr, r_hard, r_eof,
+    r_calls, r_chunk, r_eintr, r_hard, r_eof, r_reenter, nested_ops_ok, nested_ops_wrong,
     reads_total, reads_ok, reads_err, reads_under_terminal_fault, reads_fault_after_end,
     dl_reader, dl_bufreader, dl_str, dl_value, dl_destr, dl_destring, dl_deborrowed,
     dl_escaped_str, dl_escaped_reader,
@@ -140,7 +140,7 @@ pub const SITE_NAMES: [&str; 15] = [
     "digit", "number", "15+digit-number", "alnum-identifier", "whitespace", "compound",
 ];
 
-pub const FAULT_NAMES: [&str; 12] = [
+pub const FAULT_NAMES: [&str; 13] = [
     "short", "eintr", "hard-transient", "hard-sticky", "full", "lost", "crash", "flush-err",
-    "fmt-fail-transient", "fmt-fail-sticky", "flush-crash", "accept",
+    "fmt-fail-transient", "fmt-fail-sticky", "flush-crash", "accept", "reenter",
 ];
